@@ -382,7 +382,6 @@ class Engine:
         # frame
         if not (cls.has('frame') and cls.lookup('frame') is False):
             rec.clauses['frame'] = z3.simplify(z3.And(same_state(snap, kwargs), seq.frame_clause()))
-        rec.bigsums = list(seq.BIGSUMS)
         # raises
         declared = []
         if cls.has('raises'):
@@ -405,6 +404,7 @@ class Engine:
             for k, v in cl.items():
                 rec.clauses['post' + ('.' + k if k else '')] = v
         rec.inputs = kwargs
+        rec.bigsums = list(seq.BIGSUMS)
         return rec
 
     def _eval_raises(self, fn, kwargs):
